@@ -16,7 +16,9 @@ EXPLANATION = ("C12.a who-may-write: every store (attribute, subscript, augmente
                "44 functions reachable from _perform_timestep is resolved to the access paths it may write "
                "(flow-sensitive alias/role propagation from the model object's fields, numpy view-vs-copy table); "
                "a store reaching the soil, management, groundwater, weather, calendar or user-crop objects is a "
-               "violation unless it is in the explicit exemption table. Decided for all inputs; does not depend "
+               "violation unless it is in the explicit exemption table. C12.b: the one object that table lets the step rewrite outside a season start (the filler crop used "
+               "before the first season) is bound at initialisation only to a freshly constructed object or a copy - never to an object "
+               "shared with a season's crop, the user's crop or another configured structure. Decided for all inputs; does not depend "
                "on run-time values.")
 
 PROTECTED = ("PARAM.Soil", "PARAM.IrrMngt", "PARAM.FallowIrrMngt", "PARAM.FieldMngt", "PARAM.FallowFieldMngt",
@@ -35,6 +37,10 @@ ALLOWED = [
     ("solution_single_time_step", r"^PARAM\.Fallow_Crop\.(Aer|Zmin)$",
      "filler crop used before the first season; constant literal rewrites (checked to be literals)"),
 ]
+
+
+# objects the exemptions let the daily solution write (C12.b checks they are private)
+STEP_WRITABLE_OBJECTS = ["PARAM.Fallow_Crop"]
 
 
 def protected(path: str) -> bool:
@@ -84,5 +90,41 @@ def run(chk, prog, tier):
         if i not in allowed_used:
             chk.notes.setdefault("stale_exemptions", []).append(f"{fn} {rx}")
     chk.notes["exemptions"] = [f"{fn}: {rx} -- {why}" for fn, rx, why in ALLOWED]
+    rule_b(chk, prog)
     chk.assume("A-10")
     chk.exhaustive = True
+
+
+def rule_b(chk, prog):
+    """the objects the exemption table lets the step write outside a season start (the filler crop used before the first season)
+    are private: at initialisation they are bound only to freshly constructed objects or copies, never to an object that is also
+    reachable as a season's crop, the user's crop or any other configured structure"""
+    import ast
+    from ..common import init_roles
+    targets = list(STEP_WRITABLE_OBJECTS)
+    for fn, rx, _ in ALLOWED:
+        if fn == "solution_single_time_step" and not any(rx.strip("^").replace("\\.", ".").startswith(t) for t in targets):
+            chk.error(f"C12.b: exemption {rx} has no entry in STEP_WRITABLE_OBJECTS")
+    ir = init_roles(prog)
+    n = 0
+    for key in sorted(ir.reached):
+        fi = prog.funcs[key]
+        for st in stores(prog, fi, ir):
+            hit = [p for p in st.paths if p in targets]
+            if not hit or st.kind != "attr":
+                continue
+            v = getattr(st.node, "value", None)
+            if v is None or (isinstance(v, ast.Constant)):
+                continue        # placeholder literal in a constructor
+            n += 1
+            where = f"{fi.module}:{fi.qualname}"
+            rhs = sorted(ir.paths(fi, v))
+            is_copy = isinstance(v, ast.Call) and (getattr(v.func, "id", None) or getattr(v.func, "attr", None)) in ("deepcopy", "copy")
+            shared = [p for p in rhs if not p.startswith("NEW.")]
+            if is_copy or not shared:
+                chk.ok("C12.b", where, st.text, "bound to a private object (" + (", ".join(rhs) or "copy") + ")")
+            else:
+                chk.violation("C12.b", where, st.text,
+                              f"{hit[0]} - which the step rewrites on every day before the first season - is bound to an object shared with "
+                              f"{', '.join(shared)}: those parameters then change while stepping", loc=fi.loc(st.node))
+    chk.floor("C12.b", n, 1, "initialisation-time bindings of the step-writable filler crop")
